@@ -29,6 +29,16 @@ func useSimScheme(table map[string]func(u *url.URL) (zap.Sink, error)) {
 		}); err != nil {
 			panic(err)
 		}
+		// the shortest legal scheme name, one letter, serves the same table
+		if err := zap.RegisterSink("z", func(u *url.URL) (zap.Sink, error) {
+			f := simSinkTable[u.Host]
+			if f == nil {
+				return nil, fmt.Errorf("z: no sink %q in this run", u.Host)
+			}
+			return f(u)
+		}); err != nil {
+			panic(err)
+		}
 	})
 	simSinkTable = table
 }
